@@ -297,6 +297,14 @@ fn dec_inp(s: &str) -> Inp {
 
 /// Replay of a history: paint, call the prefix inputs, then the last one; compare with a fresh thread.
 pub fn replay_c16(rest: &[String]) -> ! {
+    if rest[0] == "hammer" {
+        // re-run the whole check's concurrent part: a race is only reproduced statistically
+        let a = Args { prop: "c16".into(), thorough: false, seed: 0, hard: None, replay: None, rest: vec![] };
+        let (st, _) = c16(&a);
+        let n = st.violations.iter().filter(|v| v.kind == "concurrent-callers").count();
+        println!("REPLAY cfg={} concurrent callers: {}", real::cfg_name(), if n > 0 { "some thread saw a result that differs from the sequential one" } else { "all results equal the sequential ones" });
+        std::process::exit(if n == 0 { 0 } else { 1 })
+    }
     match rest[0].as_str() {
         "history" => {
             let paint: u8 = rest[1].parse().unwrap();
@@ -510,6 +518,66 @@ pub fn c16(a: &Args) -> (Stats, String) {
     }
     reps.push(format!("{{\"family\":\"16 free-running std threads x {} rounds over the alphabet\",\"calls\":{},\"wall_s\":{:.2}}}", rounds, s3.calls, t.secs()));
     st.merge(s3);
+
+    // 4c: fast-path hammer. Short inputs with every fast-path exponent of both formats, called from 16
+    // free-running threads in different orders; any state shared between calls (a cache, a scratch static)
+    // shows up as a result that differs from the sequential one. This is a stress pass over schedules
+    // (sampling, not enumeration): it checks the independence premise of the loom exploration.
+    if !small {
+        let t = Timer::new();
+        let mut tab: Vec<Inp> = Vec::new();
+        for d in ["1", "3", "7", "12345", "16777215", "9007199254740991"] {
+            for q in -22..=37 {
+                tab.push(Inp { int: d.as_bytes().to_vec(), frac: vec![], exp: q });
+            }
+        }
+        let want: Vec<(u64, u64)> = tab.iter().map(|i| (base_bits::<f32>(i), base_bits::<f64>(i))).collect();
+        let (tab, want) = (std::sync::Arc::new(tab), std::sync::Arc::new(want));
+        let iters: usize = if a.thorough { 4_000_000 } else { 400_000 };
+        let mut hs = Vec::new();
+        for tid in 0..16usize {
+            let (tab, want) = (tab.clone(), want.clone());
+            hs.push(std::thread::spawn(move || {
+                let n = tab.len();
+                let mut bad: Option<usize> = None;
+                let mut k = tid * 17;
+                for it in 0..iters {
+                    k = (k + 2 * tid + 1 + (it & 3)) % n;
+                    let i = &tab[k];
+                    // alternate the format order so that f32 and f64 calls interleave across threads
+                    let got = if (it + tid) & 1 == 0 {
+                        let a = base_bits::<f32>(i);
+                        (a, base_bits::<f64>(i))
+                    } else {
+                        let b = base_bits::<f64>(i);
+                        (base_bits::<f32>(i), b)
+                    };
+                    if got != want[k] && bad.is_none() {
+                        bad = Some(k);
+                    }
+                }
+                (bad, 2 * iters as u64)
+            }));
+        }
+        let mut s4 = Stats::default();
+        for h in hs {
+            let (bad, calls) = h.join().unwrap();
+            s4.calls += calls;
+            s4.cases += 1;
+            if let Some(k) = bad {
+                s4.violation(api_violation(
+                    "concurrent-callers",
+                    "-",
+                    format!("{} called from 16 free-running threads (fast-path hammer)", show(&tab[k])),
+                    "differs from the sequential result".into(),
+                    format!("{:x?}", want[k]),
+                    vec!["replay-c16".into(), "hammer".into()],
+                ));
+            }
+        }
+        reps.push(format!("{{\"family\":\"fast-path hammer: 16 threads x {} iterations over 360 short inputs\",\"calls\":{},\"wall_s\":{:.2}}}", iters, s4.calls, t.secs()));
+        st.merge(s4);
+    }
     st.sample(format!("Chain split / Filter / VecDeque / DeepIter shapes on {}", show(&base[nb / 2])));
     st.sample(format!("history: {} ; {} with the stack painted 0xA5", show(&base[nb - 2]), show(&base[nb - 4])));
     (st, format!("\"base_inputs\":{},\"families\":[{}]", nb, reps.join(",")))
